@@ -139,6 +139,18 @@ class C05Run(E2Run):
             return super().do_req(req, label)
         before = self.state_digest()
         missing = self.fs_target_missing(req)
+        # the permission rule every node-level operation other than start-up carries: the node is powered on
+        gated = None
+        if len(req) >= 4 and req[:2] == ["network", "node"] and req[3] != "startup":
+            tn = self.node(req[2]) if isinstance(req[2], str) else None
+            if tn is not None and tn.operating_state.name != "ON":
+                gated = tn.operating_state.name
+        # software addressed by name that is not installed on the node (harness' own reading of the software list)
+        gone = None
+        if len(req) >= 6 and req[:2] == ["network", "node"] and req[3] in ("application", "service") and isinstance(req[4], str):
+            tn = self.node(req[2]) if isinstance(req[2], str) else None
+            if tn is not None and req[4] not in tn.software_manager.software:
+                gone = f"{req[3]} {req[4]!r} is not installed on {req[2]}"
         self.trace.history.clear()
         resp = super().do_req(req, label)  # raises C05 request-raises on exception
         tr = self.trace.history[0] if self.trace.history else None
@@ -167,6 +179,18 @@ class C05Run(E2Run):
                 bad("refused-request-changed-state", f"ended by a {tr['end']} at depth {tr['depth']} but the simulation state changed", sig=f"refused-request-changed-state:{tr['end']}")
         elif tr is not None:
             self.probe("c05_reached_handler")
+        if gated is not None:
+            self.probe("c05_request_to_node_not_on")
+            if resp.status == "success":
+                bad("refused-by-rule-answered-success", f"the node is {gated} (the 'node is on' rule refuses everything but start-up), yet the request was answered 'success'", sig=f"refused-by-rule-answered-success:node-{gated}")
+            if self.state_digest() != before:
+                bad("refused-request-changed-state", f"the node is {gated}, the request was answered {resp.status!r}, but the simulation state changed", sig="refused-request-changed-state:node-not-on")
+        if gone is not None:
+            self.probe("c05_named_software_missing")
+            if resp.status == "success":
+                bad("missing-item-answered-success", f"{gone}, yet the request was answered 'success'", sig=f"missing-item-answered-success:{req[3]}")
+            if self.state_digest() != before:
+                bad("refused-request-changed-state", f"{gone}, the request was answered {resp.status!r}, but the simulation state changed", sig="refused-request-changed-state:missing-software")
         if missing is not None:
             # the folder / file the request addresses does not exist (harness' own reading of the file system)
             self.probe("c05_named_item_missing")
